@@ -888,6 +888,8 @@ func AddOptions(r *Reg) []godi.AddOption {
 		opts = append(opts, godi.As[int]())
 	case BadOptBackquote:
 		opts = append(opts, godi.Name("bad`name"))
+	case BadOptAsAnyVoid:
+		opts = append(opts, godi.As[any]())
 	}
 	return opts
 }
